@@ -499,20 +499,22 @@ func (el *EventList) Verify(acc *Accumulator) error {
 	if err = events[count-1].hashEquals(acc.EventHash); err != nil {
 		return errors.WrapPrefix(err, "update chain has wrong hash", 0)
 	}
+	// The parent hash of the first event is compared with nothing below. It must at least be a
+	// well-formed hash of the expected length: the hash of an event covers index, parent hash and
+	// value without framing, so otherwise bytes could be moved between the parent hash and the
+	// value of the first event without changing its hash. This also holds for lists marked as
+	// verified: what uncompress() computes itself are the indices and the later parent hashes,
+	// the first parent hash is taken as it arrived.
+	if mh, err := multihash.Decode(events[0].ParentHash); err != nil || checkHashAlg(mh.Code) != nil ||
+		len(events[0].ParentHash) != len(events[0].hash()) {
+		el.validationErr = errors.New("first event has a malformed parent hash")
+		return el.validationErr
+	}
 	if el.verified {
 		if el.validationErr != nil {
 			return el.validationErr
 		}
 		return nil
-	}
-	// The parent hash of the first event is compared with nothing below. It must at least be a
-	// well-formed hash of the expected length: the hash of an event covers index, parent hash and
-	// value without framing, so otherwise bytes could be moved between the parent hash and the
-	// value of the first event without changing its hash.
-	if mh, err := multihash.Decode(events[0].ParentHash); err != nil || checkHashAlg(mh.Code) != nil ||
-		len(events[0].ParentHash) != len(events[0].hash()) {
-		el.validationErr = errors.New("first event has a malformed parent hash")
-		return el.validationErr
 	}
 
 	// Verify the hashes of the chain, computing the product of all revoked attributes along the way
